@@ -463,6 +463,12 @@ def plan():
         obs.append(Ob("export-segment-%s" % tag, ob_export_segment, "real", 900,
                       dict(tag=tag, variant=variant, sr=44100), tiers,
                       twins=("ok",) if tag == "TimeInterval" else ("ok", "refused"), twin_timeout=200))
+        if tag in ("BoundingBox", "TimeInterval"):
+            # odd samplerate: the Nyquist frequency is not a whole number
+            obs.append(Ob("export-bbox-%s-sr11025" % tag, ob_export_bbox, "real", 900,
+                          dict(tag=tag, variant=variant, sr=11025), q,
+                          twins=("ok", "refused", "capped") if tag == "BoundingBox" else ("ok", "refused"),
+                          twin_timeout=200))
         obs.append(Ob("export-bbox-%s" % tag, ob_export_bbox, "real", 900, dict(tag=tag, variant=variant, sr=44100),
                       tiers, twins=("refused",) if tag in ("TimeStamp", "Point") else ("ok", "refused", "capped")
                       if tag not in ("TimeInterval",) else ("ok", "refused"), twin_timeout=200))
@@ -485,7 +491,7 @@ INFO = dict(
         "soundevent.io.crowsetta.labels: label_to_tags, label_from_tag, label_from_tags",
     ],
     bounds="times <= 1000 s, sample indices <= 1e6, time expansion in [0.01, 100], samplerates 8000/44100/192000 "
-    "(exact real arithmetic); every geometry type (bounded shapes) for export; label options: every combination of "
+    "(and 11025 for the Nyquist cap) (exact real arithmetic); every geometry type (bounded shapes) for export; label options: every combination of "
     "function / term mapping / tag mapping / key mapping / key / term / value_only / label mapping / label function / "
     "select_by_key / index in [-4,4] / join over <= 3 tags from a pool of 9 (key, value) pairs incl. the empty "
     "value; sequences and annotations of <= 3 elements with every convertibility pattern and both error policies",
